@@ -46,6 +46,8 @@ def plan(tier, seed):
         specs.append({"name": f"api-{h}", "kind": "api", "hash": h, "n": 1024 if tier == "thorough" else 256})
     for i in range(4 if tier == "quick" else 16):
         specs.append({"name": f"apidc-{i}", "kind": "apidc", "n": 120 if tier == "quick" else 3000})
+    for i in range(2 if tier == "quick" else 8):
+        specs.append({"name": f"threads-{i}", "kind": "threads", "n": 50 if tier == "quick" else 300, "rounds": 2 if tier == "quick" else 6})
     return specs
 
 
@@ -124,6 +126,43 @@ def check_point(rec: Recorder, G, B, env, chain, kek_table, h, a, b, shape, l1, 
     rec.count("covering_compared")
     if got != kek_table[l1][l2]:
         rec.violation("derived-key-mismatch", f"envelope ({a},{b},{shape}) -> ({l1},{l2}): KEK differs from the MS-GKDI chain", wit)
+
+
+def run_threads(spec, rec: Recorder):
+    """Derivations for ONE (root key, SD, L0) - and for a second root key - from 8 threads at once, each thread at other
+    positions: the key for a position must not depend on what other threads are deriving (shared scratch buffers, caches
+    keyed too coarsely).  Expected values come from the reference chain, computed beforehand."""
+    from dpapi_ng import _blob as B
+    from dpapi_ng import _gkdi as G
+
+    rng = common.rng_for(ID, spec)
+    tasks = []
+    for world in range(2):
+        h = rng.choice(common.HASHES)
+        rkid = uuid.UUID(int=rng.getrandbits(128)) if world else uuid.UUID(int=7)
+        l0 = rng.choice([361, 0, 2**31 - 1])
+        sd = rsd.target_sd(rsd.Sid(1, 5, (21, rng.randrange(2**32), 1000 + world)))
+        root = rng.randbytes(64)
+        chain = crypto.Chain(h, root, rkid, sd, l0)
+        algo = {"SHA1": "SHA1", "SHA256": "SHA256", "SHA384": "SHA384", "SHA512": "SHA512"}[h]
+        from cryptography.hazmat.primitives import hashes as _h
+
+        halg = getattr(_h, algo)()
+        for i in range(spec["n"] // 2):
+            a, b = rng.randrange(32), rng.randrange(32)
+            shape = "full" if b != 31 or rng.random() < 0.5 else "no-l2"
+            env = make_envelope(G, chain, h, a, b, shape, rkid, l0)
+            l1 = rng.randrange(0, a + 1)
+            l2 = rng.randrange(32) if l1 < a else rng.randrange(0, b + 1)
+            wit = {"hash": h, "envelope": [a, b], "shape": shape, "request": [l1, l2], "l0": l0, "kind": "threads"}
+            tasks.append((lambda env=env, l1=l1, l2=l2, halg=halg: G.compute_l2_key(halg, l1, l2, env), chain.l2[l1][l2], wit))
+            kid = B.KeyIdentifier(version=1, flags=0, l0=l0, l1=l1, l2=l2, root_key_identifier=rkid, key_info=NONCE, domain_name="", forest_name="")
+            tasks.append((lambda env=env, kid=kid: env.get_kek(kid), crypto.kek_nonce(h, chain.l2[l1][l2], NONCE), dict(wit, fn="get_kek")))
+            rec.case(("threads", spec["name"], world, i))
+        # and the L1 chain start from the root key
+        tasks.append((lambda root=root, rkid=rkid, l0=l0, sd=sd, halg=halg: G.compute_l1_key(sd, rkid, l0, root, halg), chain.l1[31], {"kind": "threads", "fn": "compute_l1_key", "hash": h, "l0": l0}))
+    common.hammer(rec, tasks, "derived-key-mismatch-under-threads", rounds=spec["rounds"], seed=spec["seed"])
+    rec.count("covering_compared", len(tasks))
 
 
 def run_lattice(spec, rec: Recorder):
@@ -304,7 +343,7 @@ def run_shard(spec, rec: Recorder):
         return
     if spec["kind"] == "apidc" and not common.calibrate(rec, "rpc", "epm"):
         return
-    {"lattice": run_lattice, "api": run_api, "apidc": run_apidc}[spec["kind"]](spec, rec)
+    {"lattice": run_lattice, "api": run_api, "apidc": run_apidc, "threads": run_threads}[spec["kind"]](spec, rec)
 
 
 def replay(body, rec: Recorder):
